@@ -44,7 +44,7 @@ def seq_proj(nm):
 
 
 def run_seq(ctx, rp, tag, kinds, void=False, coro=False, strict=False, max_emit=2, max_handles=2, forms=None,
-            max_paths=None, extra_random=0, replay=True):
+            max_paths=None, extra_random=0, replay=True, replay_timeout=900):
     consts, nm = seq_constants(kinds, void, coro, strict, max_emit, max_handles, forms)
     if not replay:
         cfgp = os.path.join(vlib.BUILD, "%s_%s.cfg" % (ctx.prop, tag))
@@ -65,7 +65,7 @@ def run_seq(ctx, rp, tag, kinds, void=False, coro=False, strict=False, max_emit=
         must.append("Yield")
     res, g = graph_replay(ctx, "Signal", "Signal", "Signal_base.cfg", tag, rp, seq_proj(nm), header_fn=hdr,
                           constants=consts, must_take=must, max_paths=max_paths, extra_random=extra_random,
-                          tlc_kw={"workers": 4})
+                          tlc_kw={"workers": 4}, replay_timeout=replay_timeout)
     return res
 
 
@@ -114,7 +114,117 @@ def run_conc(ctx, rpc, tag, kinds, nemit=2, form="rvalue", max_paths=None, extra
     res, g = graph_replay(ctx, "Signal", "SignalConc", "SignalConc_base.cfg", tag, rpc, pj, header_fn=hdr,
                           constants=consts, must_take=must, max_paths=max_paths, extra_random=extra_random,
                           tlc_kw={"workers": 4})
+    try:   # TLC writes a second graph for the liveness check next to the dump
+        os.remove(os.path.join(vlib.BUILD, "%s_%s_liveness.dot" % (ctx.prop, tag)))
+    except OSError:
+        pass
     return res
+
+
+def fast_cover_paths(g, rng, max_paths=None, full=True, max_len=400, want_terminal=True):
+    """Same contract as vlib.cover_paths (edge-covering set of root-to-terminal paths; returns
+    (paths, covered, total)) in O(total path length): vlib's version searches the nearest uncovered edge
+    by BFS whenever a walk is stuck, which is quadratic on the 10^5-edge graphs of Signal.tla.
+    Here every still uncovered edge u->v gets: shortest path root->u (BFS tree), the edge, a greedy
+    continuation over uncovered edges (with a small look-ahead), then the shortest way to a terminal state."""
+    from collections import deque
+    out = {n: [(l, d) for (l, d) in es if d != n] for n, es in g.edges.items()}
+    total = sum(len(v) for v in out.values())
+    parent = {}
+    order = []
+    inits = list(g.init)
+    rng.shuffle(inits)
+    dq = deque()
+    for i in inits:
+        parent[i] = None
+        dq.append(i)
+    while dq:
+        n = dq.popleft()
+        order.append(n)
+        for i, (l, d) in enumerate(out[n]):
+            if d not in parent:
+                parent[d] = (n, i)
+                dq.append(d)
+    rev = {}
+    for n, es in out.items():
+        for (l, d) in es:
+            rev.setdefault(d, []).append(n)
+    dist = {}
+    for n, es in out.items():
+        if not es:
+            dist[n] = 0
+            dq.append(n)
+    while dq:
+        n = dq.popleft()
+        for q in rev.get(n, []):
+            if q not in dist:
+                dist[q] = dist[n] + 1
+                dq.append(q)
+    covered = set()
+    paths = []
+
+    def prefix(u):
+        es = []
+        while parent[u] is not None:
+            q, i = parent[u]
+            es.append((q, i))
+            u = q
+        es.reverse()
+        return u, es
+
+    def lookahead(src, radius=3, limit=150):
+        seen = {src: None}
+        q = deque([(src, 0)])
+        while q and len(seen) < limit:
+            n, r = q.popleft()
+            if n != src and any((n, j) not in covered for j in range(len(out[n]))):
+                es = []
+                while seen[n] is not None:
+                    es.append(seen[n])
+                    n = seen[n][0]
+                es.reverse()
+                return es
+            if r < radius:
+                for j, (l, d) in enumerate(out[n]):
+                    if d not in seen:
+                        seen[d] = (n, j)
+                        q.append((d, r + 1))
+        return None
+
+    for u in reversed(order):
+        idxs = list(range(len(out[u])))
+        rng.shuffle(idxs)
+        for i in idxs:
+            if (u, i) in covered:
+                continue
+            if max_paths is not None and len(paths) >= max_paths:
+                return paths, len(covered), total
+            root, pre = prefix(u)
+            steps = []
+            for (n, j) in pre + [(u, i)]:
+                covered.add((n, j))
+                steps.append(out[n][j])
+            cur = out[u][i][1]
+            while len(steps) < max_len:
+                unc = [j for j in range(len(out[cur])) if (cur, j) not in covered]
+                if unc:
+                    hop = [(cur, rng.choice(unc))]
+                else:
+                    hop = lookahead(cur)
+                    if hop is None:
+                        break
+                for (n, j) in hop:
+                    covered.add((n, j))
+                    steps.append(out[n][j])
+                    cur = out[n][j][1]
+            if want_terminal:
+                while out[cur] and cur in dist and len(steps) < max_len + 200:
+                    j = min(range(len(out[cur])), key=lambda x: dist.get(out[cur][x][1], 1 << 30))
+                    covered.add((cur, j))
+                    steps.append(out[cur][j])
+                    cur = out[cur][j][1]
+            paths.append((root, steps))
+    return paths, len(covered), total
 
 
 def run_jobs(ctx, jobs, par=3):
@@ -177,9 +287,12 @@ def run(ctx):
         for i, m in enumerate(extra[:3]):
             conc("x_r%d" % i, m, nemit=2, form="lvalue" if i % 2 else "rvalue", max_paths=300)
     else:
+        # full edge covers of 10^5-edge graphs: see fast_cover_paths (same contract as vlib.cover_paths, which
+        # framework.graph_replay looks up at call time; this process runs only this check)
+        vlib.cover_paths = fast_cover_paths
         for coro in (False, True):
             c = "c" if coro else "n"
-            seq(c + "_lgo", LGO, coro=coro, max_emit=3)
+            seq(c + "_lgo", LGO, coro=coro, max_emit=3, max_paths=50000 if coro else None, replay_timeout=3000)
             seq(c + "_lft", LFT, coro=coro, max_emit=3)
             seq(c + "_go", ["gated", "cbonce"], coro=coro, max_emit=3)
             seq(c + "_ggt", ["gated", "gated", "cbt"], coro=coro, max_emit=2)
@@ -189,8 +302,9 @@ def run(ctx):
             seq("s_" + c + "_llg", ["loop", "loop", "gated"], coro=coro, strict=True, max_emit=3, replay=False)
             seq("s_" + c + "_ggt", ["gated", "gated", "cbt"], coro=coro, strict=True, max_emit=3, replay=False)
             seq("s_v" + c + "_lgo", LGO, void=True, coro=coro, strict=True, max_emit=4, replay=False)
-        seq("n_llg", ["loop", "loop", "gated"], max_emit=3)
-        seq("n_lg4", ["loop", "gated"], max_emit=4)
+        seq("n_llg", ["loop", "loop", "gated"], max_emit=2)
+        seq("c_llg", ["loop", "loop", "gated"], coro=True, max_emit=2)
+        seq("n_lg4", ["loop", "gated"], max_emit=4, replay_timeout=3000)
         seq("c_lg", ["loop", "gated"], coro=True, max_emit=3)
         for i, m in enumerate(conc_mixes(3)):
             conc("x%d" % i, m, nemit=2, form="lvalue" if i % 2 else "rvalue")
